@@ -1,5 +1,11 @@
 //@@ module: chess/zobrist.rs
 //@@ tag: c03distinct
+//@@ cargo-dep: ppv-lite86 = { version = "0.2.20", features = ["no_simd"] }
+// The key components come from rand's StdRng (ChaCha12) with a FIXED seed: a closed computation.  The SIMD back end of the
+// ChaCha implementation detects CPU features with inline assembly (unsupported by Kani), so for THIS obligation the staged
+// crate selects the dependency's portable back end (cargo feature no_simd of ppv-lite86) -- recorded in the evidence.
+// ASSUMPTION: the portable and the SIMD back ends of ppv-lite86 compute the same ChaCha stream (they are the crate's two
+// implementations of one function; rand_chacha's test vectors run against both).
 
 //@ obligation: C03.components_distinct
 //@ status: experimental
@@ -9,7 +15,7 @@
 //@ timeout: 7200
 //@ mem_gb: 16
 //@ note: the REAL zobrist::init (fixed seed, so a closed computation) is executed by CBMC and the 838 component words it produces are pairwise distinct and non-zero (checked for an arbitrary pair of component indices over the flattened tables)
-//@ assumes: rand_chacha / rand as compiled. RESULT OF THE ATTEMPT: Kani stops with 'TerminatorKind::InlineAsm is not currently supported' (CPU-feature detection inside rand_chacha), so this clause stays UNDECIDED -- as anticipated in DESIGN C03
+//@ assumes: rand_chacha / rand as compiled with ppv-lite86's portable back end. RESULTS OF THE ATTEMPTS: (1) with the default SIMD back end Kani stops with 'TerminatorKind::InlineAsm is not currently supported' (CPU-feature detection); (2) with the portable back end selected for the staged crate (cargo-dep directive) the crate compiles and CBMC starts, but the closed ChaCha computation of 838 words exceeds 16 GB after 20 min of symbolic execution -- so this clause stays UNDECIDED (experimental), as anticipated in DESIGN C03
 #[kani::proof]
 #[kani::unwind(840)]
 fn vk_c03_components_distinct() {
